@@ -14,6 +14,8 @@ from tiv.mutate import M
 from tiv.sign import ge1
 
 RULES = {
+    "R6": "borrowed clauses: C03.R3 (image commands carry width/height = rendered size, preserveAspectRatio=0), C03.R6 (kitty o=z flag never stale across strips) and "
+          "C04.R3 (rendered_size re-evaluated on every access) hold for the renderers - the rectangle advertised is the rectangle painted",
     "MEMO": "memo safety (shared, rules/common.py): a memoised function in this property's files (or called from them) is a function of its "
             "arguments only (no terminal/ambient/receiver state outside the key) and no caller mutates its result in place",
     "R1": "template completeness: every control-sequence constant of _ctlseqs.py, constant-folded, is a concatenation of complete ECMA-48 "
@@ -304,6 +306,19 @@ def run(ck, m):
 
     from rules.c03 import rule_chunk_protocol
     rule_chunk_protocol(ck, m, "R5")
+
+    # ---- R6: what the rectangle also depends on, decided by sibling properties' rules and applied here to the same code ---------
+    #   C03.R3: the image commands carry width/height = rendered size, preserveAspectRatio=0 (the image covers every cell);
+    #   C03.R6: the kitty o=z flag never goes stale across the strips of one render (a strip that fails to decode paints nothing);
+    #   C04.R3: rendered_size is re-evaluated on every access for a dynamic size (the advertised rectangle is the current one).
+    from tiv.report import Scoped
+    import rules.c03 as c03
+    import rules.c04 as c04
+    sc3 = Scoped(ck, "R6", lambda c: "_render_image" in c or "Transmission" in c or "ControlData" in c, rids={"R3", "R6"})
+    c03.run(sc3, m)
+    sc4 = Scoped(ck, "R6", lambda c: c.endswith("::BaseImage") or "rendered_" in c, rids={"R3"})
+    c04.run(sc4, m)
+    ck.expect(sc3.kept >= 10 and sc4.kept >= 3, f"expected sibling obligations (C03.R3/R6: {sc3.kept}, C04.R3: {sc4.kept})")
 
     from rules.common import rule_memo_safety
     rule_memo_safety(ck, m, "MEMO", "C01")
